@@ -129,6 +129,13 @@ func (c *ingestor) ingestBlock(batch db.KeyValueWriter, blockNumber uint64) (int
 		return 0, err
 	}
 
+	if txCount > 0 && len(blockTransactions.Indexes.Transactions) == 0 {
+		// validateCount accepted an empty fetch for a block with transactions only because the
+		// block is already migrated: keep the migrated entry instead of overwriting it with an
+		// empty one.
+		return txCount, nil
+	}
+
 	return txCount, core.BlockTransactionsBucket.Put(batch, blockNumber, &blockTransactions)
 }
 
